@@ -102,9 +102,71 @@ def oracle (evs : List Ev) (wRA wAR : List String) : Option (String × String) :
     | _ => pure ()
   return none
 
+/-- the acceptor of an `scp` line is the real storescp tool: it is not scripted, its loop simply
+runs as far as it can (take the next PDU, answer a release request, leave) -/
+def runLoopA (s : Sys) : Nat → Sys
+  | 0 => s
+  | fuel + 1 =>
+    let act : Option Act := match s.a with
+      | .established => if !s.ra.isEmpty || s.r.sockClosed then some .recv else none
+      | .replying => some .reply
+      | .replied => some .close
+      | _ => none
+    match act with
+    | none => s
+    | some a => match step s .A a with
+      | some s' => runLoopA s' fuel
+      | none => s
+
+def replayScp (s : Sys) (k : Nat) : List Ev → Except String Sys
+  | [] => .ok (runLoopA s (s.ra.length + 4))
+  | e :: rest =>
+    let s := runLoopA s (s.ra.length + 4)
+    match step s e.peer e.act with
+    | none => .error s!"event {k} ({repr e.peer} {repr e.act}) is not enabled in the model (peer state {showSt (stOf s e.peer)})"
+    | some s' =>
+      if expected s e ≠ e.res then
+        .error s!"event {k} ({repr e.peer} {repr e.act}) result model={expected s e} impl={e.res}"
+      else replayScp s' (k + 1) rest
+
+def splitSecs (more : List String) : List (List String) :=
+  let rec go (cur : List String) (acc : List (List String)) : List String → List (List String)
+    | [] => (cur.reverse :: acc).reverse
+    | "|" :: r => go [] (cur.reverse :: acc) r
+    | t :: r => go (t :: cur) acc r
+  go [] [] more
+
+def handleScp (flavour : String) (rest : List String) : String :=
+  match rest with
+  | nT :: more =>
+    match nT.toNat?, splitSecs more with
+    | some n, [evT, raT, arT] =>
+      match evT.mapM parseEv with
+      | some evs =>
+        if evs.length ≠ n ∨ raT[1]? ≠ some "rq" ∨ arT[1]? ≠ some "ac" then "BAD-LINE" else
+        let wRA := raT.drop 2
+        let wAR := arT.drop 2
+        match oracle evs wRA wAR with
+        | some (c, d) => s!"PROP-FAIL class={c} {d}"
+        | none =>
+          -- the tool must answer a release request with a release reply
+          if wRA.contains "rlrq" && wAR.getLast? != some "rlrp" then
+            s!"PROP-FAIL class=release-not-answered storescp ({flavour}) got a release request; it sent {wAR}"
+          else
+          match replayScp init 0 evs with
+          | .error d => s!"MODEL-DIFF not a behaviour of the model: {d}"
+          | .ok s =>
+            if s.tRA.map showMsg ≠ wRA then s!"MODEL-DIFF wire requestor→storescp model={s.tRA.map showMsg} recorded={wRA}"
+            else if s.tAR.map showMsg ≠ wAR then s!"MODEL-DIFF wire storescp→requestor model={s.tAR.map showMsg} recorded={wAR}"
+            else s!"ok scp-{flavour}-{showSt s.r}-{showSt s.a}-{if wRA.contains "pd" then "data" else "nodata"}{if wRA.contains "other" then "-other" else ""}"
+      | none => "BAD-LINE"
+    | _, _ => "BAD-LINE"
+  | [] => "BAD-LINE"
+
 def handle (line : String) : String :=
   match tokens line with
   | ["skip", why] => s!"ok trivial-skip-{why}"
+  | "scp" :: flavour :: rest => handleScp flavour rest
   | "sched" :: rest =>
     match Dicom.tokens (" ".intercalate rest) with
     | nT :: more =>
